@@ -726,7 +726,7 @@ inductive Resolved
   | notFound (vals : List Val) (hooks : List (Nat × HookPair)) (partialRoute : Str)
   | notAllowed (allow : Str)
   | fault            -- tree data without a route object (never reached from `add`)
-  deriving Repr
+  deriving DecidableEq, Repr
 
 /-- `RadiRouter.resolve(path, methods)` with a non-empty `methods` -/
 def Router.resolve (env : FilterEnv) (R : Router) (path : Str) (methods : List Str) : Resolved :=
